@@ -417,6 +417,9 @@ func (s *session) newManifest(rec *sessionRecord, v *version) (err error) {
 		rec = &sessionRecord{}
 	}
 	s.fillRecord(rec, true)
+	// The version already holds the tables the record adds: list each once,
+	// the record seeds the file reference counts.
+	rec.resetAddedTables()
 	v.fillRecord(rec)
 
 	defer func() {
